@@ -16,13 +16,26 @@ RECURSIVE SliceMenus(_)
 SliceMenus(shape) == IF shape = <<>> THEN {<<>>}
                      ELSE { <<c>> \o r : c \in AxisMenu(Head(shape)), r \in SliceMenus(Tail(shape)) }
 
-OpsFor(sh) ==
+Perms(n) == { q \in [1..n -> 1..n] : IsPerm(q, n) }
+\* 3-d sources get a reduced menu (the slice menus alone would be 5^3 per step): what matters there are
+\* permutations that do not commute, and structure-changing steps around them
+Ops3(sh) ==
+  { [op |-> "perm", axes |-> p] : p \in { q \in Perms(Len(sh)) : \E i \in 1..Len(sh) : q[i] # i } }
+  \cup { [op |-> "T"], [op |-> "addrev"], [op |-> "addk", k |-> 7], [op |-> "rechunk", how |-> "ones"] }
+  \cup { [op |-> "sum", axis |-> a] : a \in 0..Len(sh) }
+  \cup { [op |-> "concatr", axis |-> a, how |-> "split1"] : a \in 1..Len(sh) }
+  \cup { [op |-> "slice", comps |-> <<[k |-> "i", i |-> 0]>> \o [j \in 1..(Len(sh) - 1) |-> Sl(None, None, IF j = 1 THEN 1 ELSE -1)]],
+         [op |-> "slice", comps |-> [j \in 1..Len(sh) |-> IF j = 2 THEN Sl(1, None, 1) ELSE Sl(None, None, 1)]] }
+
+OpsFor(sh) == IF Len(sh) >= 3 THEN Ops3(sh) ELSE
   { [op |-> "slice", comps |-> cs] : cs \in { x \in SliceMenus(sh) : \E p \in DOMAIN x : x[p] # Sl(None, None, 1) } }
   \cup { [op |-> "addk", k |-> 7], [op |-> "mulk", k |-> 3], [op |-> "neg"], [op |-> "mapb"], [op |-> "addself"], [op |-> "T"], [op |-> "stack"] }
   \cup (IF Len(sh) >= 1 THEN { [op |-> "addrev"] } ELSE {})
   \cup { [op |-> kind, axis |-> a] : kind \in {"sum", "max"}, a \in 0..Len(sh) }
   \cup { [op |-> "rechunk", how |-> h] : h \in {"one", "ones", "split1"} }
   \cup { [op |-> "concat", axis |-> a] : a \in 1..Len(sh) }
+  \cup { [op |-> "concatr", axis |-> a, how |-> h] : a \in 1..Len(sh), h \in {"ones", "split1"} }
+  \cup { [op |-> "perm", axes |-> p] : p \in { q \in Perms(Len(sh)) : \E i \in 1..Len(sh) : q[i] # i } }
 
 RECURSIVE Pipes(_, _)
 Pipes(sh, d) ==
@@ -44,4 +57,11 @@ CellCountOK == done => LET r == Run(Source(case.shape), case.pipe) IN r.ok => Le
 \* transposing twice, negating twice and rechunking are identities of the reference
 Involutions == \A sh \in Shapes : /\ Transpose(Transpose(Source(sh))) = Source(sh)
                                   /\ Apply(Apply(Source(sh), [op |-> "neg"]), [op |-> "neg"]) = Source(sh)
+\* reversing the axes is the permutation <<n, ..., 1>>; composing two permutations p then q is the single
+\* permutation i |-> p[q[i]] (the law a transpose-fusing rewrite must implement)
+PermLaws == \A sh \in Shapes :
+              LET n == Len(sh)
+                  P == Perms(n)
+              IN /\ Permute(Source(sh), [i \in 1..n |-> n + 1 - i]) = Transpose(Source(sh))
+                 /\ \A p \in P, q \in P : Permute(Permute(Source(sh), p), q) = Permute(Source(sh), [i \in 1..n |-> p[q[i]]])
 =============================================================================
